@@ -821,6 +821,16 @@ func (r *proxyStreamReceiver) recvReplicationMessages(
 				continue
 			}
 
+			// A target that has not acknowledged anything yet must still hold back the aggregated ACK:
+			// until it acks, its level is the first task routed to it.
+			r.ackMu.Lock()
+			for targetShardID, tasks := range tasksByTargetShard {
+				if _, ok := r.ackByTarget[targetShardID]; !ok {
+					r.ackByTarget[targetShardID] = tasks[0].SourceTaskId
+				}
+			}
+			r.ackMu.Unlock()
+
 			// Retry across the whole target set until all sends succeed (or shutdown)
 			sentByTarget := make(map[history.ClusterShardID]bool, len(tasksByTargetShard))
 			loggedByTarget := make(map[history.ClusterShardID]bool, len(tasksByTargetShard))
